@@ -3,11 +3,9 @@
 SEED=$(realpath $1); shift
 WT=$(mktemp -d /tmp/ts-XXXXXX); rmdir $WT
 git -C /repo worktree add -q --detach $WT HEAD || exit 9
-if ! git -C $WT apply $SEED/patch.diff 2>/dev/null; then
-  if ! git -C $WT apply -3 $SEED/patch.diff 2>/dev/null; then
-     if [ -f $SEED/patch.rebased.diff ] && git -C $WT apply $SEED/patch.rebased.diff; then :; else echo "PATCH DOES NOT APPLY to HEAD"; git -C /repo worktree remove --force $WT; exit 7; fi
-  fi
-fi
+if git -C $WT apply $SEED/patch.diff 2>/dev/null; then :
+elif [ -f $SEED/patch.rebased.diff ] && git -C $WT apply $SEED/patch.rebased.diff 2>/dev/null; then echo "(applied patch.rebased.diff)"
+else echo "PATCH DOES NOT APPLY to HEAD"; git -C /repo worktree remove --force $WT; exit 7; fi
 rc=0
 for c in "$@"; do
   VERIF_REPO=$WT /verif/check $c --tier quick > $WT.out 2>&1; r=$?
